@@ -665,19 +665,22 @@ func (c *Ctx) JudgeAndReport(spec, cfg string, cases []map[string]any, shards in
 	}
 	confirmed := map[int]map[string]any{}
 	for round := 0; round < 5 && len(pending) > 0; round++ {
-		var batch []map[string]any
+		var olds []map[string]any
 		for _, id := range pending {
 			old := byID[id]
 			if old == nil {
 				c.Infra("judge returned unknown id %d", id)
 				continue
 			}
-			again := old
-			if rerun != nil {
-				again = rerun(old)
-			}
-			batch = append(batch, again)
+			olds = append(olds, old)
 		}
+		batch := make([]map[string]any, len(olds))
+		Parallel(len(olds), func(k int) {
+			batch[k] = olds[k]
+			if rerun != nil {
+				batch[k] = rerun(olds[k])
+			}
+		})
 		f2, ok2 := c.Judge(spec, cfg, batch, shards)
 		if !ok2 {
 			return
